@@ -54,7 +54,14 @@ def items_of(mir, tour):
                 c = sorted(exp.get(("op", kind), set()) | exp.get(("op_at", kind), set()))
             items.append((f"{kind} #{key} in {tname}", c, r))
             seen_kind_lines.add((kind, r[1]))
+            if kind == "LiteralReference":
+                seen_kind_lines.add(("literal:" + lit_value.get(b["refers_to"], "?"), r[1]))
     for (kind, key), lines in exp.items():
+        if kind == "literal" and len(lines) > 1:
+            # one literal value written on several lines: every one of those lines has its own Literal operation
+            for l in lines:
+                if ("literal:" + key, l) not in seen_kind_lines:
+                    problems.append(f"no Literal operation of value {key} is attributed to line {l}")
         if kind == "op":
             for l in lines:
                 if (key, l) not in seen_kind_lines:
@@ -81,6 +88,10 @@ def run(ctx):
             if name == "two-files":
                 with open(os.path.join(d, dname, "c19_helper_module.py"), "w") as f:
                     f.write(srcref_cases.HELPER_MODULE)
+            for rel, ftext in srcref_cases.EXTRA_FILES.get(name, {}).items():
+                os.makedirs(os.path.dirname(os.path.join(d, dname, rel)), exist_ok=True)
+                with open(os.path.join(d, dname, rel), "w") as f:
+                    f.write(ftext)
             rc, out, err, dt = vlib.run([vlib.PY, os.path.join(vlib.VERIF, "tools", "run_one.py"), path, "--script"], 120,
                                         cwd=d, env=(dict(vlib.impl_env(), PYTHONPATH=os.path.join(d, "link_to_repo"))
                                                     if name == "tour-package-through-link" else vlib.impl_env()))
@@ -101,6 +112,20 @@ def run(ctx):
                               and r[2] == sum(len(l) + 1 for l in helper_lines[:r[1] - 1]))
                         if not ok:
                             problems.append(f"{lb}: reference {r} does not delimit a line of the helper module")
+                    else:
+                        kept.append((lb, cs, r))
+                items = kept
+            if name in srcref_cases.EXPECT_SLICES:
+                # operations created in helper files: the reference, read in the text the MIR embeds under that file name,
+                # must delimit the creating line
+                kept = []
+                for lb, cs, r in items:
+                    if r[0] != fname:
+                        kind = lb.split(" ")[0]
+                        want = srcref_cases.EXPECT_SLICES[name].get(kind)
+                        got = (mir["source_files"].get(r[0]) or "")[r[2]:r[2] + r[3]]
+                        if want is not None and got != want:
+                            problems.append(f"{lb}: the reference into {r[0]} delimits {got!r}, the operation was created by {want!r}")
                     else:
                         kept.append((lb, cs, r))
                 items = kept
@@ -138,6 +163,8 @@ def run(ctx):
                 dsl = [w for w in wrong if w["reference"][0] != fname]
                 if name == "tour-crlf" and all(w["reference"][0] == fname and w["reference"][1] in w["expected_lines"] for w in wrong) and not problems:
                     key = "C19/offset:crlf-line-endings"
+                elif name == "two-helper-files-one-base-name":
+                    key = "C19/files:two-files-with-one-base-name"
                 elif name == "dir-named-like-the-package":
                     key = "C19/offset:path-contains-package-name"
                 elif dsl:
